@@ -56,4 +56,30 @@ inline std::vector<double> scaled(std::vector<double> c, double s) { for (auto& 
 
 inline void quiet_gsl() { gsl_set_error_handler_off(); }
 
+// "State left behind by an earlier call": a burst of unrelated library calls with dense complex data in several
+// dimensions, whose results are discarded. Enumerators call it between cases so that any scratch state the library keeps
+// (thread-local matrices, recycled storage blocks, cached intermediate results) is dirty when the case under test runs.
+inline void pollute(int d) {
+  try {
+    for (int dd : {d, d == 6 ? 3 : d + 1}) {
+      Mat Hm(dd); for (int i = 0; i < dd; i++) for (int j = 0; j < dd; j++) { cd z(std::cos(1.3 * i + 0.7 * j + dd), std::sin(0.4 * i - 1.1 * j + 0.5)); Hm(i, j) += z; Hm(j, i) += std::conj(z); }
+      GslMat g(Hm);
+      SU_vector a(g.g), b = mkvec(dd, probe(dd, 1));
+      { auto m = a.GetGSLMatrix(); (void)m; }
+      Mat U = ref::eye(dd); U(0, 0) = std::cos(0.7); U(1, 1) = std::cos(0.7); U(0, 1) = std::sin(0.7) * std::exp(cd(0, -0.9)); U(1, 0) = -std::sin(0.7) * std::exp(cd(0, 0.9));
+      GslMat Ug(U);
+      { SU_vector r = a.Rotate(Ug.g); SU_vector r2 = a.UTransform(Ug.g); SU_vector r3 = a.UDaggerTransform(Ug.g); (void)r; (void)r2; (void)r3; }
+      { SU_vector e = a.UTransform(b, gsl_complex_rect(0, 0.37)); (void)e; }
+      { auto es = a.GetEigenSystem(true); (void)es; }
+      { SU_vector c = squids::iCommutator(a, b); SU_vector ac = squids::ACommutator(a, b); c += ac; volatile double t = a * c; (void)t; }
+      { std::vector<double> e(dd); for (int j = 0; j < dd; j++) e[j] = 0.3 * j * j - 0.5; SU_vector H = mkvec(dd, ref::basis(dd).proj(ref::diag(e))); std::vector<double> buf(dd * (dd - 1)); std::vector<bool> avr(dd * (dd - 1) / 2);
+        H.PrepareEvolve(buf.data(), 0.77, 0.9, avr); SU_vector ev = a.Evolve(buf.data()); SU_vector ev2 = a.Evolve(H, -1.3); ev += ev2; }
+      { SU_vector p = SU_vector::Projector(dd, dd - 1) + SU_vector::PosProjector(dd, 1); SU_vector q = SU_vector::Generator(dd, dd * dd - 1) * 3.0; p -= q; }
+      { SU_vector r = a.Rotate(0, dd - 1, 0.4, 1.1); (void)r; }
+    }
+  } catch (const std::exception&) {}
+}
+
+inline void maybe_pollute(int d, long every = 61) { static long n = 0; if (++n % every == 0) pollute(d); }
+
 }  // namespace vf
